@@ -11,12 +11,12 @@ BUILT = {
  "C15": dict(level="exploration",
    technique="grammar-based generation with token/bracket bookkeeping: mode differential on complete programs, continuation oracle on generated cut points, and chunked-vs-batch evaluation of typed scripts",
    text="Programs are printed from harness-owned trees with random layout; the printer records for every token which constructs are open after it. (1) Complete programs must parse to the intended tree in line mode and in file mode. (2) Up to 25 cuts per program at token boundaries inside an open parenthesis, bracket, block or map, right after a binary operator, and inside string literals and block comments: line mode must ask for a continuation without error, and prefix + newline + rest must parse to the tree of the whole program (not compared where a call/index bracket must follow without whitespace). (3) Typed-grammar scripts with functions, closures, loops and macros defined before use are evaluated at once and in consecutive chunks at generated statement boundaries on one session: concatenated output and final globals must agree.",
-   note="Cuts after prefix operators, dots and if/for/else are labelled but not asserted. Scripts that fail when run at once are skipped and counted.",
+   note="Cuts after prefix operators, dots and if/for/else are labelled but not asserted. Scripts that fail when run at once are skipped and counted. Also: the grol command on a pseudo terminal (script(1)), multi-line programs typed line by line against the same text run as a file; skipped where script(1) is missing, inconclusive when the session does not end.",
    ref="DESIGN.md section 3, C15"),
  "C14": dict(level="exploration",
    technique="round-trip testing of generated global environments (SaveGlobals -> AutoLoad line by line and load() whole file -> compare values, types, function text and behaviour; save fixpoint) plus stateful save/load/mutate cycles against a model",
    text="Generated environments hold integers (both extremes), floats (integral-valued, -0, subnormal, huge, infinities, NaN), strings over all bytes, nested arrays and maps with keys of every type and sizes around the thresholds, and named functions / func literals / lambdas whose bodies come from the full statement grammar with comments; they are saved with State.SaveGlobals and loaded into fresh states both ways. Checked: one line per binding with the right prefix, sorted; no load error; identical type and structure of every data value; identical printed form and identical output / result / error of every function on three generated argument tuples; saving the reloaded state gives identical bytes; with a length limit longer values are absent and all others present (values placed right at the limit). A stateful generator adds save / load / mutate cycles through the language's own save() and load() against a model.",
-   note="Function bodies in the class of known finding K-C02-1 are excluded by construction (the compact printer changes such trees). Functions are compared on 3 argument tuples, not all.",
+   note="Function bodies in the class of known finding K-C02-1 are excluded by construction (the compact printer changes such trees). Functions are compared on 3 argument tuples, not all. K-C14-1 (Inf / NaN rebound) and K-C14-2 (comments of a function body seen through first/rest) are listed findings, steered around and counted.",
    ref="DESIGN.md section 3, C14"),
  "C18": dict(level="fault_enumeration",
    technique="fault injection with exhaustive enumeration of crash points (SIGKILL at hook points in a child process) and byte-granular write failures (RLIMIT_FSIZE) over rapid-generated pairs of previous/new state; oracle = on-disk file is exactly the previous or the new file and the next session loads one of the two states",
@@ -51,7 +51,7 @@ BUILT = {
  "C05": dict(level="exploration",
    technique="differential testing (registers on vs State.NoReg) of typed-grammar programs and multi-input sessions; oracle = identical per-input output, echo, error/no-error, panicked flag and final globals",
    text="Typed-grammar programs (functions of up to 12 parameters of mixed types, recursion, closures, variadics, parameter mutation with = ++ --, counted loops nested up to 10 deep, all loop forms and exits, error/catch, containers) are evaluated whole or statement by statement on two fresh states, with and without registers, and every input's output, echo, error presence and the final globals are compared; two focused generators add sessions of up to 40 top-level loops each left in a drawn way, and functions of 0..12 parameters called with every mix of integer / non-integer arguments whose bodies mutate, print, loop over and capture the parameters. Four classes where the optimisation is observable by design are excluded by construction and reported as known findings.",
-   note="A defect present with and without registers is invisible here (C01 covers semantics). Inputs stopped by the 4 s safety deadline make the rest of the case inconclusive. Error wording is not compared.",
+   note="A defect present with and without registers is invisible here (C01 covers semantics). Inputs stopped by the 4 s safety deadline make the rest of the case inconclusive. Error wording is not compared. K-C05-2 is additionally recognised by its call site (the one error message) after comparing everything before it. Inputs that ran until their deadline are inconclusive whatever the error says.",
    ref="DESIGN.md section 3, C05"),
  "C07": dict(level="exploration",
    technique="exhaustive operator/builtin/extension x operand-kind tables + wild grammar-based generation + token-level mutation of shipped examples + native fuzzing; oracle = repl.EvalOne never reports a panic other than the two documented guards, process stays alive",
@@ -66,7 +66,7 @@ BUILT = {
  "C01": dict(level="exploration",
    technique="differential testing against an independent reference evaluator: rapid-generated typed programs (own syntax tree and printer), oracle = printed text, final value (type, structure, float bits) and error/no error equal those of harness/ref",
    text="Programs are drawn from the harness's typed grammar of the core language (functions, lambdas, closures, recursion with a fuel parameter, variadics, if/else, every for form with break/continue/return, = and :=, ++/--, indexing with negative indices, slicing, every operator, && and ||, error()/catch(), containers on both sides of the small/large thresholds, boundary integers) and printed by the harness's own printer, so the intended tree is known without grol's parser. grol evaluates the text in a fresh default state; the reference evaluator (harness/ref: own scoping model with references and recursion parenting, Go int64 arithmetic, own value order and printed form) evaluates the tree. Interactions (precedence x associativity x unary operators, scoping x recursion x closures, slicing x negative indices x size, control flow x loops x return) are what the generator multiplies; each case is classified by the interactions it exercised.",
-   note="As strong as the reference is faithful: it was written from the evaluator's documentation and code reading and shares no code with /repo. Error message wording is not compared. Programs touching a listed known finding (K-C06-1, K-C06-2, K-C05-1..3 by construction) are excluded and counted.",
+   note="As strong as the reference is faithful: it was written from the evaluator's documentation and code reading and shares no code with /repo. Error message wording is not compared. Programs touching a listed known finding (K-C06-1, K-C06-2, K-C05-1..3 by construction) are excluded and counted. K-C05-2 (non-integer assigned to an integer parameter) is steered around by the generator and additionally recognised by its call site (the one error message), after comparing everything printed before it.",
    ref="DESIGN.md section 3, C01"),
  "C02": dict(level="exploration",
    technique="grammar-based generation from harness-owned trees with an independent printer + exhaustive operator-position x construct pairs and statement adjacencies + native fuzzing; oracle = round trip on a canonical structural dump and equality with the intended tree",
